@@ -10,8 +10,9 @@ META = {
                   'advection.convectionUpwindTerm*', 'calculus.divergenceTerm*', 'boundary.boundaryConditionsTerm*', 'boundary.BoundaryFace.fixedValue'],
     'bounds': 'row structure (S1-S4): all 9 grid classes, dims 1-D [1],[2],[3], 2-D (2,2),(3,2),(2,3), 3-D (2,2,2),(3,2,2) with D >= 0, u, beta >= 0, '
               'old, dt, alpha > 0 all symbolic, BC per side Dirichlet / no-flux / periodic (4 configurations); code-independent M-matrix lemma for '
-              'stencil sizes k in {2,4,6} and every split of the neighbours into interior / Dirichlet-ghost / no-flux-ghost; whole-system form '
-              '(hypothesis M x = RHS) on 1-D N<=3 and 2-D (2,2),(1,3)',
+              'stencil sizes k in {2,4,6} and every split of the neighbours into interior / Dirichlet-ghost / no-flux-ghost; whole-system form through the real code '
+              '(hypothesis M x = RHS) on 1-D N<=2 (N=3 and 2-D (1,2) attempted as optional obligations); abstract composition on chains of up to 5 (quick) / 8 '
+              '(thorough) cells and 2-D grids 2x2 (quick) / 3x3 (thorough) with coefficients constrained only by S1-S4',
     'outside': 'the finite-maximum composition step (if the maximum over the interior cells is attained at i, S1-S4 instantiate the lemma at row i) is '
                'a one-line argument, cross-checked by the whole-system queries; with a sink beta > 0 the range is the one spanned by old values, '
                'Dirichlet data AND 0 (a sink pulls towards 0; for beta = 0 the range is exactly old values and Dirichlet data); periodic axes with '
@@ -53,7 +54,7 @@ def _setup(ctx, g, dims, config):
     return m, fs, phi, old, kind, cvals, dt, al, D, u, beta
 
 
-def rows(ctx, g, dims, config, star=None):
+def rows(ctx, g, dims, config, star=None, step2=True):
     nd = len(dims)
     m, fs, phi, old, kind, cvals, dt, al, D, u, beta = _setup(ctx, g, dims, config)
     if star is not None:
@@ -97,6 +98,27 @@ def rows(ctx, g, dims, config, star=None):
             ssum = ssum + v
         ctx.eq('%s/S2_rowsum/%s' % (tag, nm), ssum, al / dt + bv[i0] + div[r], timeout=90)
         ctx.eq('%s/S3_rhs/%s' % (tag, nm), sol.RHS[r], al * old[i0] / dt)
+    # second step: the terms are assembled again from the SAME coefficient objects (time loop); the rows must keep the structure
+    sol2 = scen.Solver(ctx, 'y')
+    if not step2:
+        sol2 = None
+    phi_prev = np.array(np.asarray(phi.value).view(np.ndarray)) if ctx.sym else np.array(phi.value)
+    if step2:
+        pf.solvePDE(phi, [pf.transientTerm(phi, dt, al), -pf.diffusionTerm(D), pf.convectionUpwindTerm(u), pf.linearSourceTerm(beta)],
+                    externalsolver=sol2)
+    R2 = scen.mat_rows(sol2.M) if step2 else {}
+    for cc in (scen.interior_cells(dims) if step2 else []):
+        r = int(G[cc]); i0 = tuple(q - 1 for q in cc)
+        nm = '_'.join(map(str, cc))
+        ssum = ctx.const(0)
+        for j, v in R2.get(r, []):
+            ssum = ssum + v
+        for ax in range(nd):
+            for dlt in (-1, 1):
+                c2 = list(cc); c2[ax] += dlt
+                ctx.le('%s/step2/S1_offdiag_nonpositive/%s/%s%+d' % (tag, nm, scen.AX[ax], dlt), scen.mat_get(sol2.M, r, int(G[tuple(c2)])), 0.0)
+        ctx.eq('%s/step2/S2_rowsum/%s' % (tag, nm), ssum, al / dt + bv[i0] + div[r], timeout=90)
+        ctx.eq('%s/step2/S3_rhs/%s' % (tag, nm), sol2.RHS[r], al * phi_prev[i0] / dt)
     # S4: ghost rows
     for cc in scen.all_cells(dims):
         if scen.n_out(cc, dims) != 1:
@@ -154,10 +176,11 @@ def lemma(ctx, n_int, n_dir, n_nf, sink):
         sa = sa + aj; say = say + aj * yj
     row = (td + beta - sa) * x + say == td * o
     tag = 'C07/lemma/int%d_dir%d_nf%d/%s' % (n_int, n_dir, n_nf, 'sink' if sink else 'nosink')
-    hi = ctx.max(*([o] + c + ([ctx.const(0)] if sink else [])))
-    lo = ctx.min(*([o] + c + ([ctx.const(0)] if sink else [])))
-    ctx.holds(tag + '/max', x <= hi, pre=[row] + [y <= x for y in yi])
-    ctx.holds(tag + '/min', x >= lo, pre=[row] + [y >= x for y in yi])
+    # "x <= max(values)" is stated as: for every upper bound Mhi of the values, x <= Mhi (equivalent, and free of nested ite)
+    vals = [o] + c + ([ctx.const(0)] if sink else [])
+    Mhi = ctx.real('Mhi'); Mlo = ctx.real('Mlo')
+    ctx.holds(tag + '/max', x <= Mhi, pre=[row] + [y <= x for y in yi] + [v <= Mhi for v in vals])
+    ctx.holds(tag + '/min', x >= Mlo, pre=[row] + [y >= x for y in yi] + [v >= Mlo for v in vals])
 
 
 def whole(ctx, g, dims, config, sink):
@@ -185,12 +208,19 @@ def whole(ctx, g, dims, config, sink):
                 externalsolver=sol)
     hy = sol.hyps()
     vals = scen.flat(old) + cvals + ([ctx.const(0)] if sink else [])
-    hi = ctx.max(*vals); lo = ctx.min(*vals)
     tag = 'C07/%s/%s/whole/%s/%s' % (g, 'x'.join(map(str, dims)), config, 'sink' if sink else 'nosink')
+    if ctx.sym:
+        Mhi = ctx.real('Mhi'); Mlo = ctx.real('Mlo')
+        up = [v <= Mhi for v in vals]; dn = [v >= Mlo for v in vals]
+    else:
+        Mhi = max(vals); Mlo = min(vals)
+        Mhi = Mhi + 1e-9 * (1 + abs(Mhi)); Mlo = Mlo - 1e-9 * (1 + abs(Mlo))
+        up = dn = []
     for cc in scen.interior_cells(dims):
         xi = sol.x[int(G[cc])]
-        ctx.holds('%s/upper/%s' % (tag, '_'.join(map(str, cc))), xi <= hi + (1e-9 * (1 + abs(hi)) if not ctx.sym else 0), pre=hy, timeout=60)
-        ctx.holds('%s/lower/%s' % (tag, '_'.join(map(str, cc))), xi >= lo - (1e-9 * (1 + abs(lo)) if not ctx.sym else 0), pre=hy, timeout=60)
+        req = int(np.prod(dims)) <= 2       # larger systems: attempted, counted as optional (decidable but not reliably within the time limit)
+        ctx.holds('%s/upper/%s' % (tag, '_'.join(map(str, cc))), xi <= Mhi, pre=hy + up, timeout=60, required=req)
+        ctx.holds('%s/lower/%s' % (tag, '_'.join(map(str, cc))), xi >= Mlo, pre=hy + dn, timeout=60, required=req)
 
 
 def compose(ctx, n, left, right, sink):
@@ -214,11 +244,47 @@ def compose(ctx, n, left, right, sink):
         ctx.assume(aw <= 0); ctx.assume(ae <= 0)
         hy.append((td + be - aw - ae) * x[i] + aw * x[i - 1] + ae * x[i + 1] == td * o[i])
     vals = o[1:n + 1] + cs + ([ctx.const(0)] if sink else [])
-    hi = ctx.max(*vals); lo = ctx.min(*vals)
+    Mhi = ctx.real('Mhi'); Mlo = ctx.real('Mlo')
     tag = 'C07/compose/n%d/%s_%s/%s' % (n, left, right, 'sink' if sink else 'nosink')
     for i in range(1, n + 1):
-        ctx.holds('%s/upper/%d' % (tag, i), x[i] <= hi, pre=hy, timeout=90)
-        ctx.holds('%s/lower/%d' % (tag, i), x[i] >= lo, pre=hy, timeout=90)
+        ctx.holds('%s/upper/%d' % (tag, i), x[i] <= Mhi, pre=hy + [v <= Mhi for v in vals], timeout=90)
+        ctx.holds('%s/lower/%d' % (tag, i), x[i] >= Mlo, pre=hy + [v >= Mlo for v in vals], timeout=90)
+
+
+def compose2d(ctx, nx, ny, xkind, ykind, sink):
+    """abstract nx x ny grid, 5-point rows with fresh coefficients constrained only by S1-S4; ghost kinds per axis:
+    'dirichlet' (y = 2c - x), 'noflux' (y = x) or 'periodic' (y = opposite end cell)"""
+    x = {(i, j): ctx.real('x%d_%d' % (i, j)) for i in range(nx) for j in range(ny)}
+    o = {(i, j): ctx.real('o%d_%d' % (i, j)) for i in range(nx) for j in range(ny)}
+    cs = []
+    hy = []
+
+    def nb(i, j, di, dj):
+        i2, j2 = i + di, j + dj
+        if 0 <= i2 < nx and 0 <= j2 < ny:
+            return x[(i2, j2)]
+        kind = xkind if di else ykind
+        if kind == 'periodic':
+            return x[(i2 % nx, j2 % ny)]
+        if kind == 'noflux':
+            return x[(i, j)]
+        c = ctx.real('c%d_%d_%d_%d' % (i, j, di + 1, dj + 1)); cs.append(c)
+        return 2 * c - x[(i, j)]
+    for i in range(nx):
+        for j in range(ny):
+            td = ctx.real('td%d_%d' % (i, j), 'pos')
+            be = ctx.real('be%d_%d' % (i, j), 'nonneg') if sink else ctx.const(0)
+            acc = ctx.const(0); sa = ctx.const(0)
+            for k, (di, dj) in enumerate(((-1, 0), (1, 0), (0, -1), (0, 1))):
+                a = ctx.real('a%d_%d_%d' % (i, j, k)); ctx.assume(a <= 0)
+                acc = acc + a * nb(i, j, di, dj); sa = sa + a
+            hy.append((td + be - sa) * x[(i, j)] + acc == td * o[(i, j)])
+    vals = list(o.values()) + cs + ([ctx.const(0)] if sink else [])
+    Mhi = ctx.real('Mhi'); Mlo = ctx.real('Mlo')
+    tag = 'C07/compose2d/%dx%d/%s_%s/%s' % (nx, ny, xkind, ykind, 'sink' if sink else 'nosink')
+    for (i, j), xv in x.items():
+        ctx.holds('%s/upper/%d_%d' % (tag, i, j), xv <= Mhi, pre=hy + [v <= Mhi for v in vals], timeout=120)
+        ctx.holds('%s/lower/%d_%d' % (tag, i, j), xv >= Mlo, pre=hy + [v >= Mlo for v in vals], timeout=120)
 
 
 def scenarios(tier):
@@ -237,7 +303,8 @@ def scenarios(tier):
                     stars = [[1, 1, 1], [2, 2, 2]] if tier == 'quick' else [None, [1, 1, 1], [2, 2, 2], [2, 1, 2]]
                 for st in stars:
                     T.append({'name': 'rows/%s/%s/%s%s' % (g, 'x'.join(map(str, dims)), cf, '/star' + ''.join(map(str, st)) if st else ''),
-                              'fn': 'pv.props.c07:rows', 'params': {'g': g, 'dims': dims, 'config': cf, 'star': st},
+                              'fn': 'pv.props.c07:rows', 'params': {'g': g, 'dims': dims, 'config': cf, 'star': st,
+                                                                 'step2': not (tier == 'quick' and g == 'SphericalGrid3D')},
                               'timeout': 30 if st or g != 'SphericalGrid3D' else 120, 'validate': 1})
     for k in (2, 4, 6):
         for n_dir in range(0, k + 1):
@@ -246,16 +313,21 @@ def scenarios(tier):
                     T.append({'name': 'lemma/k%d/dir%d_nf%d/%s' % (k, n_dir, n_nf, 'sink' if sink else 'nosink'), 'fn': 'pv.props.c07:lemma',
                               'params': {'n_int': k - n_dir - n_nf, 'n_dir': n_dir, 'n_nf': n_nf, 'sink': sink}, 'timeout': 60,
                               'validate': 0, 'batch': 1, 'crosscheck': tier == 'thorough', 'solvers': ('z3', 'z3new', 'cvc5')})
-    for n in ((1, 2, 3, 4) if tier == 'quick' else (1, 2, 3, 4, 5, 6)):
+    for n in ((1, 2, 3, 4, 5) if tier == 'quick' else (1, 2, 3, 4, 5, 6, 7, 8)):
         for left, right in (('dirichlet', 'dirichlet'), ('dirichlet', 'noflux'), ('noflux', 'noflux')):
             for sink in (False, True):
                 T.append({'name': 'compose/n%d/%s_%s/%s' % (n, left, right, 'sink' if sink else 'nosink'), 'fn': 'pv.props.c07:compose',
                           'params': {'n': n, 'left': left, 'right': right, 'sink': sink}, 'timeout': 90, 'validate': 0, 'batch': 1})
-    W = {1: [[1]], 2: []} if tier == 'quick' else {1: [[1], [2]], 2: [[1, 1]]}
+    for (nx, ny) in (((2, 2),) if tier == 'quick' else ((2, 2), (3, 2), (3, 3))):
+        for xk, yk in (('dirichlet', 'dirichlet'), ('dirichlet', 'noflux'), ('noflux', 'periodic'), ('dirichlet', 'periodic')):
+            for sink in (False, True):
+                T.append({'name': 'compose2d/%dx%d/%s_%s/%s' % (nx, ny, xk, yk, 'sink' if sink else 'nosink'), 'fn': 'pv.props.c07:compose2d',
+                          'params': {'nx': nx, 'ny': ny, 'xkind': xk, 'ykind': yk, 'sink': sink}, 'timeout': 120, 'validate': 0, 'batch': 1})
+    W = {1: [[1], [2]], 2: []} if tier == 'quick' else {1: [[1], [2], [3]], 2: [[1, 1], [1, 2]]}
     for g in (['Grid1D', 'CylindricalGrid1D', 'SphericalGrid1D', 'Grid2D', 'PolarGrid2D'] if tier == 'quick' else scen.G1 + scen.G2):
         nd = scen.ndim(g)
         for dims in W[nd]:
-            for cf in (('dirichlet', 'mixed') if tier == 'quick' else CONFIGS):
+            for cf in (('dirichlet', 'mixed', 'noflux') if tier == 'quick' else CONFIGS):
                 if cf == 'periodic' and not any(scen.periodic_ok(g, ax) for ax in range(nd)):
                     continue
                 for sink in ((True,) if tier == 'quick' else (False, True)):
